@@ -20,8 +20,11 @@ Definition gen_run (reg : list text) (ser : N) (call : bool) (parts : list val) 
 Inductive iobs := IOk (census : list text) | IErr (e : err) (ext : bool) | IErrOther (ext : bool).
 
 (* the registry each serializer class sees after a history of register / unregister calls, per the generated mode *)
+Definition gen_inplace (k : regkind) : bool := match k with KD2C => reg_d2c_inplace | KC2D => reg_c2d_inplace end.
+Definition gen_norm_register (k : regkind) : bool := match k with KD2C => reg_d2c_norm_register | KC2D => false end.
+Definition gen_norm_unregister (k : regkind) : bool := match k with KD2C => reg_d2c_norm_unregister | KC2D => false end.
 Definition gen_effective (k : regkind) (h : list regop) (ser : N) : list text :=
-  effective (match k with KD2C => reg_d2c_inplace | KC2D => reg_c2d_inplace end) k h ser.
+  effective (gen_inplace k) (gen_norm_register k) (gen_norm_unregister k) k h ser.
 
 Record case := { c_ser : N; c_call : bool;
                  c_hist : list regop;         (* register / unregister calls made before decoding, through either entry point *)
